@@ -1228,6 +1228,9 @@ func TestC13(t *testing.T) {
 		return
 	}
 
+	if !hx.SelfTest() {
+		concurrentPhase(res)
+	}
 	rnd := hx.Rand()
 	all := hx.LoadCases[fcase](t, "FastCGI")
 	routes := hx.LoadCases[rcase](t, "FcgiRoute")
